@@ -40,7 +40,7 @@ static void mt_ledger(const char *tag)
 		n--;
 	}
 	printf("T%d %s fds=%d heap=%zu leaks=%d\n", mt_me(), tag, n, __sanitizer_get_current_allocated_bytes(),
-	       !strcmp(tag, "LEDGER-END") ? __lsan_do_recoverable_leak_check() : 0);
+	       !strncmp(tag, "LEDGER-", 7) ? __lsan_do_recoverable_leak_check() : 0);
 }
 
 void mt_finish(const char *why)
@@ -193,6 +193,9 @@ static void quiescent(void)
 		if (VT[t].state != ST_UNUSED && VT[t].state != ST_DONE)
 			printf(" T%d:%s", t, VT[t].state == ST_MUTEX ? "mutex" : VT[t].state == ST_WAIT ? "wait" : VT[t].state == ST_JOIN ? "join" : "run");
 	printf("\n");
+	/* nothing can run any more: whatever the library allocated and no longer references is lost for good (LeakSanitizer
+	 * scans the blocked threads' stacks and registers too, so memory that is still in use is never counted) */
+	mt_ledger("LEDGER-QUIESCENT");
 	for (i = 0; i < nexts; i++)
 		if (exts[i]->at_end != NULL)
 			exts[i]->at_end();
